@@ -60,7 +60,9 @@ def sources(tier, seed, ctx):
 
 
 def probes():
-    return []
+    from . import _histcommon as H
+
+    return H.finding_probes(PROP)
 
 
 def record(src):
